@@ -72,11 +72,28 @@ Theorem C07_within :
 Proof. exact split_within. Qed.
 Print Assumptions C07_within.
 
+(* the literal wording: two splits of the same degree share its mass in proportion to their weights *)
+Theorem C07_within_proportional :
+  forall probs fp lo hi d,
+    HypSplit probs fp lo hi -> create_split probs fp lo hi = Ok d ->
+    forall jd1 v1 jd2 v2, In (jd1, v1) d -> In (jd2, v2) d -> wsum jd1 = wsum jd2 ->
+      (v1 * weight probs jd2 == v2 * weight probs jd1)%Q.
+Proof. exact split_proportional. Qed.
+Print Assumptions C07_within_proportional.
+
 Theorem C07_total :
   forall probs fp lo hi d,
     HypSplit probs fp lo hi -> create_split probs fp lo hi = Ok d -> (qsum (map snd d) == 1)%Q.
 Proof. exact split_total. Qed.
 Print Assumptions C07_total.
+
+(* the hypotheses hold for every vector of probabilities with probs_0 > 0 and every degree
+   function that does not sum to zero *)
+Theorem C07_hypotheses_of_probabilities :
+  forall p0 ps fp lo hi,
+    (0 < p0)%Q -> Forall (fun p => 0 <= p)%Q ps -> ~ (F fp lo hi == 0)%Q -> HypSplit (p0 :: ps) fp lo hi.
+Proof. exact HypSplit_of_probabilities. Qed.
+Print Assumptions C07_hypotheses_of_probabilities.
 
 (* ---------- delta loader ----------
    HypDelta target M probs fp lo hi := (some k <> target in range -> M <> 0) /\
